@@ -807,6 +807,22 @@ impl ArrayImpl {
         Ok(A::new_string(unary_op(a.as_ref(), |s| s.replace(from, to))))
     }
 
+    /// REPLACE with a search or replacement string that is not a constant: one pair per row.
+    pub fn replace_array(&self, from: &Self, to: &Self) -> Result {
+        let (A::String(a), A::String(from), A::String(to)) = (self, from, to) else {
+            return Err(ConvertError::NoBinaryOp(
+                "replace".into(),
+                self.type_string(),
+                from.type_string(),
+            ));
+        };
+        Ok(A::new_string(
+            (a.iter().zip(from.iter()).zip(to.iter()))
+                .map(|((a, from), to)| Some(a?.replace(from?, to?)))
+                .collect(),
+        ))
+    }
+
     pub fn repeat(&self, num: &Self) -> Result {
         let (A::String(a), A::Int32(b)) = (self, num) else {
             return Err(ConvertError::NoBinaryOp(
